@@ -243,6 +243,7 @@ type Path struct {
 	eventSeq     int
 	preempt      int
 	turnSched    bool
+	clockVirtual bool
 	clock0       *smt.T
 	clockHorizon *smt.T
 	curFrame     *Frame
